@@ -114,7 +114,7 @@ func GenRefresh(t *rapid.T) Case {
 	c.Lines = genLines(t, c.V6, false, 1)
 	n := rapid.IntRange(2, 6).Draw(t, "nrewrites")
 	for i := 0; i < n; i++ {
-		rw := Rewrite{}
+		rw := Rewrite{Pause: rapid.SampledFrom([]int{0, 0, 0, 1, 5, 30}).Draw(t, "pause")}
 		bad := rapid.IntRange(0, 2).Draw(t, "bad-rewrite") == 0
 		rw.Lines = genLines(t, c.V6, false, 1)
 		if bad {
